@@ -9,7 +9,7 @@ RULE = (
     "of the 12 driving-force entry points (inner flux evaluation, flux solver, permeate-composition and separation-factor "
     "helpers, ideal and non-ideal curve, 4 process models, pure-component flux, curve construction from fluxes) under both "
     "activity models; a mixture without interaction parameters; NRTL / UNIQUAC parameters missing (activity coefficients, "
-    "partial pressures, flux solver, ideal process); UNIQUAC constants missing on the first / second component (direct and "
+    "partial pressures, flux solver, both helpers, ideal curve, both ideal processes); UNIQUAC constants missing on the first / second component (direct and "
     "through the solver); a curve with neither fluxes nor permeances; activation energy and off-temperature permeance "
     "with a single experiment without stated activation energy. Every cell is executed with K random otherwise-valid "
     "argument sets (quick 40, thorough 600; non-ideal cells K/4), and its control (same arguments, contradiction removed) "
@@ -135,6 +135,14 @@ def cell_missing(what, via):
             mk = lambda m: (lambda: calculate_activity_coefficients(T, m, x, model))
         elif via == "partial pressures":
             mk = lambda m: (lambda: get_partial_pressures(T, m, x, model))
+        elif via == "permeate-composition helper":
+            mk = lambda m: (lambda: Pervaporation(fc.membrane, m).calculate_permeate_composition(T, x, prec, None, None, model))
+        elif via == "separation-factor helper":
+            mk = lambda m: (lambda: Pervaporation(fc.membrane, m).calculate_separation_factor(T, x, None, None, prec, model))
+        elif via == "ideal curve":
+            mk = lambda m: (lambda: Pervaporation(fc.membrane, m).ideal_diffusion_curve(T, [x], None, None, prec, model))
+        elif via == "ideal non-isothermal process":
+            mk = lambda m: (lambda: Pervaporation(fc.membrane, m).ideal_non_isothermal_process(conditions=_conditions(fc, rng, None, None), number_of_steps=2, delta_hours=1e-6, precision=prec, calculation_type=model))
         elif via == "flux solver":
             mk = lambda m: (lambda: Pervaporation(fc.membrane, m).calculate_partial_fluxes(T, x, prec, first_component_permeance=fc.p1, second_component_permeance=fc.p2, calculation_type=model))
         else:
@@ -207,7 +215,8 @@ for _e in ENTRIES:
         CELLS.append(cell_both(_e, _m))
 CELLS.append(cell_no_parameters())
 for _w in ("nrtl", "uniquac", "const1", "const2"):
-    for _v in ("activity coefficients", "partial pressures", "flux solver", "ideal process"):
+    for _v in ("activity coefficients", "partial pressures", "flux solver", "permeate-composition helper", "separation-factor helper", "ideal curve",
+               "ideal process", "ideal non-isothermal process"):
         CELLS.append(cell_missing(_w, _v))
 CELLS.append(cell_empty_curve())
 CELLS.append(cell_single_experiment("calculate_activation_energy"))
@@ -260,7 +269,7 @@ def finalize(agg, tier):
 
 
 LEVEL_TEXT = (
-    "Fault enumeration: the finite matrix (entry point x invalid-specification class, 41 cells) is enumerated completely; "
+    "Fault enumeration: the finite matrix (entry point x invalid-specification class, 57 cells) is enumerated completely; "
     "every cell is executed with K random otherwise-valid argument sets and must raise each time, while its control (the "
     "same arguments with the contradiction removed) must return at least once. Held means every invalid call of this run "
     "was rejected."
